@@ -81,6 +81,14 @@ fn ctor_u(s: &str) -> BigUint {
         "be" => BigUint::from_bytes_be(&hexbytes(rest)),
         #[cfg(feature = "serde")]
         "serde" => sd::biguint(words(rest)),
+        "radle" => {
+            let (r, b) = cut(rest);
+            BigUint::from_radix_le(&hexbytes(b), r.parse().unwrap()).expect("radix digits")
+        }
+        "radbe" => {
+            let (r, b) = cut(rest);
+            BigUint::from_radix_be(&hexbytes(b), r.parse().unwrap()).expect("radix digits")
+        }
         _ => panic!("bad ctor"),
     }
 }
@@ -100,6 +108,14 @@ fn ctor_i(s: &str) -> BigInt {
         "slice" => BigInt::from_slice(sg, &words(body)),
         "le" => BigInt::from_bytes_le(sg, &hexbytes(body)),
         "be" => BigInt::from_bytes_be(sg, &hexbytes(body)),
+        "radle" => {
+            let (r, b) = cut(body);
+            BigInt::from_radix_le(sg, &hexbytes(b), r.parse().unwrap()).expect("radix digits")
+        }
+        "radbe" => {
+            let (r, b) = cut(body);
+            BigInt::from_radix_be(sg, &hexbytes(b), r.parse().unwrap()).expect("radix digits")
+        }
         #[cfg(feature = "serde")]
         "serde" => sd::bigint(
             match sg {
